@@ -11,6 +11,15 @@ package retransmission
 // mutex - so that they reach the membership test together. Call / Delegate /
 // Return events are validated for linearizability against the atomic
 // test-and-set of the specification; the outcome is also checked directly.
+// Where the filter reads the sequence number - inside or outside a lock - is
+// its own business: if the callers do not all show up at the barrier within a
+// few milliseconds (one of them is holding a lock the others wait for), the
+// barrier lets go, and after two such rounds it is not used any more.
+//
+// TestVerif_C16_FilterOrder replays, sequentially, every arrival order the
+// specification enumerates (two senders x sequence numbers 1..4: out of
+// order, gaps filled later, repeats), retransmitting everything seen so far
+// after every step: each (sender, seqno) must reach the delegate exactly once.
 
 import (
 	"fmt"
@@ -66,6 +75,7 @@ func TestVerif_C16_Filter(t *testing.T) {
 	for i := 7; i <= 16; i++ {
 		allProcs = append(allProcs, fmt.Sprintf("p%d", i))
 	}
+	barrierMisses := 0
 	for round := 0; round < rounds; round++ {
 		// rounds that are not recorded use more callers and one fresh key per wave
 		procs := procs
@@ -104,6 +114,7 @@ func TestVerif_C16_Filter(t *testing.T) {
 			}
 			var arrived sync.WaitGroup
 			var release int32 // spun on, so that all callers start within nanoseconds of each other
+			var arrivedN int32
 			var done sync.WaitGroup
 			for _, p := range procs {
 				k := common
@@ -118,8 +129,15 @@ func TestVerif_C16_Filter(t *testing.T) {
 				done.Add(1)
 				msg := &c16FilterMsg{sender: k.s, seqno: k.n, proc: p}
 				var once sync.Once
+				if barrierMisses >= 2 {
+					arrived.Done() // no barrier any more: the filter serializes its callers before Seqno()
+				}
 				msg.hold = func() {
+					if barrierMisses >= 2 {
+						return
+					}
 					once.Do(func() {
+						atomic.AddInt32(&arrivedN, 1)
 						arrived.Done()
 						for i := 0; atomic.LoadInt32(&release) == 0; i++ {
 							if i%2000 == 1999 {
@@ -140,9 +158,13 @@ func TestVerif_C16_Filter(t *testing.T) {
 			go func() { arrived.Wait(); close(ok) }()
 			select {
 			case <-ok:
-			case <-time.After(30 * time.Second):
-				// the filter does not ask for the sequence number before locking any more:
-				// no barrier, the calls still race freely
+			case <-time.After(25 * time.Millisecond):
+				// not everybody got to Seqno(): either the machine is busy or the filter asks for
+				// the sequence number while holding a lock the others wait for. Let go; the calls
+				// still race freely.
+				if atomic.LoadInt32(&arrivedN) <= 1 {
+					barrierMisses++ // one caller inside Seqno(), the others behind it: not slowness
+				}
 				rep.Count("barrier_missed", 1)
 			}
 			atomic.StoreInt32(&release, 1)
@@ -163,4 +185,78 @@ func TestVerif_C16_Filter(t *testing.T) {
 		rep.Eval(fmt.Sprintf("round:%d:%d", waves, round%7), map[string]interface{}{"round": round, "waves": waves, "delegated": delegated})
 	}
 	rep.Count("events", tr.N())
+}
+
+func TestVerif_C16_FilterOrder(t *testing.T) {
+	kit.RequireEngine(t)
+	rep := kit.NewReport("C16", "filter_order")
+	defer rep.Write(t)
+	for _, c := range kit.LoadCases(t, "sequences.ndjson") {
+		delegated := map[string]int{}
+		wrapped := WithRetransmissionSupport(func(m net.Message) {
+			fm := m.(*c16FilterMsg)
+			delegated[fmt.Sprintf("%s:%d", fm.sender, fm.seqno)]++
+		})
+		call := func(k string) {
+			var sender string
+			var seqno uint64
+			if _, err := fmt.Sscanf(k, "s%1s:%d", &sender, &seqno); err != nil {
+				t.Fatalf("bad key %q: %v", k, err)
+			}
+			wrapped(&c16FilterMsg{sender: "s" + sender, seqno: seqno})
+		}
+		var order, seen []string
+		bad := false
+		for i, st := range c.Get("calls").List() {
+			k := st.Get("k").Str()
+			before := delegated[k]
+			call(k)
+			order = append(order, k)
+			got := delegated[k] - before
+			want := 0
+			if st.Get("fresh").Bool() {
+				want = 1
+				seen = append(seen, k)
+			}
+			if got != want {
+				key, what := "filter-order-lost", "did not reach the delegate although it arrived for the first time"
+				if got > want {
+					key, what = "filter-order-duplicate", "reached the delegate again"
+				}
+				rep.Diverge(key, fmt.Sprintf("arrival order %v: message %s (call %d) %s", order, k, i+1, what),
+					map[string]interface{}{"calls": c.Get("calls").X, "at": i + 1}, want, got)
+				bad = true
+				break
+			}
+			// retransmission of everything seen so far
+			for _, r := range seen {
+				b := delegated[r]
+				call(r)
+				if delegated[r] != b {
+					rep.Diverge("filter-order-duplicate", fmt.Sprintf("arrival order %v, then a retransmission of %s: it reached the delegate a second time", order, r),
+						map[string]interface{}{"calls": c.Get("calls").X, "at": i + 1, "retransmitted": r}, 1, delegated[r])
+					bad = true
+					break
+				}
+			}
+			if bad {
+				break
+			}
+			rep.Count("calls", 1+len(seen))
+		}
+		nt := ""
+		if !bad {
+			// out of order for some sender?
+			last := map[byte]string{}
+			for _, k := range seen {
+				if p, ok := last[k[1]]; ok && k < p {
+					nt = kit.Hash(c.X)
+				}
+				last[k[1]] = k
+			}
+		} else {
+			nt = kit.Hash(c.X)
+		}
+		rep.Eval(nt, map[string]interface{}{"order": order})
+	}
 }
